@@ -3,7 +3,7 @@
    Model: Model/Handshake.v (message readers/writers over a symbolic duplex whose outputs,
    like X25519, ML-KEM and the certificate policy verdict, are oracles) and Model/HsServer.v
    (Server.readPacket). All theorems hold for every byte string and every oracle behaviour. *)
-From Hop Require Import Base Handshake HsServer HandshakeProofs HsServerProofs HsBindingProofs HsHonestProofs HsInstances.
+From Hop Require Import Base Handshake HsServer HandshakeProofs HsServerProofs HsBindingProofs HsHonestProofs HsInstances Keccak Cyclist CyclistProofs HsConcrete HsConcreteProofs.
 Open Scope N_scope.
 
 (* ---- client side, discoverable mode. The client accepts a ServerAuth only if the policy
@@ -169,3 +169,52 @@ Proof. vm_compute. reflexivity. Qed.
 (* the hypothesis mac_binding of the *_under_mac_binding theorems is satisfiable *)
 Example c01_mac_binding_satisfiable : mac_binding injO.
 Proof. exact mac_binding_satisfiable. Qed.
+
+(* ====== the executable instance (Model/HsConcrete.v): readers written directly over Cyclist API calls
+   on the handshake state's Cyclist object, as the Go code is, coincide with the symbolic readers whose
+   oracle is "run the transcript on Cyclist over Keccak-p[1600,12]" — same outcome, and the object
+   left behind is the object of the transcript left behind. So every theorem above about the symbolic
+   readers (all oracles) speaks about byte-exact hop when instantiated with hopO. *)
+Theorem c01_concrete_server_auth_reader : forall X ce pol T c b,
+  cy_of keccak12 T = Ok c -> md c = MKey ->
+  exists c', c_read_server_auth keccak12 X ce pol c b = Ok (c', snd (read_server_auth hopO X ce pol T b)) /\
+             cy_of keccak12 (fst (read_server_auth hopO X ce pol T b)) = Ok c'.
+Proof. exact (read_server_auth_concrete keccak12). Qed.
+Print Assumptions c01_concrete_server_auth_reader.
+
+Theorem c01_concrete_client_auth_reader : forall X se pol sid T c b,
+  cy_of keccak12 T = Ok c -> md c = MKey ->
+  exists c', c_read_client_auth keccak12 X se pol sid c b = Ok (c', snd (read_client_auth hopO X se pol sid T b)) /\
+             cy_of keccak12 (fst (read_client_auth hopO X se pol sid T b)) = Ok c'.
+Proof. exact (read_client_auth_concrete keccak12). Qed.
+Print Assumptions c01_concrete_client_auth_reader.
+
+Theorem c01_concrete_server_auth_accept_iff : forall X ce pol T c b,
+  cy_of keccak12 T = Ok c -> md c = MKey ->
+  (exists c' r, c_read_server_auth keccak12 X ce pol c b = Ok (c', Ok r)) <->
+  (exists T' r, read_server_auth hopO X ce pol T b = (T', Ok r)).
+Proof. exact (server_auth_accept_iff_concrete keccak12). Qed.
+Print Assumptions c01_concrete_server_auth_accept_iff.
+
+Theorem c01_concrete_client_auth_accept_iff : forall X se pol sid T c b,
+  cy_of keccak12 T = Ok c -> md c = MKey ->
+  (exists c' r, c_read_client_auth keccak12 X se pol sid c b = Ok (c', Ok r)) <->
+  (exists T' r, read_client_auth hopO X se pol sid T b = (T', Ok r)).
+Proof. exact (client_auth_accept_iff_concrete keccak12). Qed.
+Print Assumptions c01_concrete_client_auth_accept_iff.
+
+(* C01 for the byte-exact reader: acceptance => the policy admits the decrypted chain and the trailing
+   MAC is what Cyclist squeezes right after Absorb(DH(e, certified key)) on the object reached by the
+   code's call sequence. Only X25519 and the policy remain oracles. *)
+Theorem c01_concrete_server_auth_accept : forall X ce pol T c b c' r,
+  cy_of keccak12 T = Ok c -> md c = MKey ->
+  c_read_server_auth keccak12 X ce pol c b = Ok (c', Ok r) ->
+  exists ee des leaf inter c6,
+    x_dh X ce (sa_eph r) = Some ee /\
+    certs_of (sa_certs_pt hopO T b ee) (len (slice b sa_off (sa_L b))) = Ok (leaf, inter) /\
+    x_policy X pol leaf inter = Some (sa_pk r) /\
+    x_dh X ce (sa_pk r) = Some des /\
+    cy_of keccak12 (OSqueeze MacLen :: sa_T5 hopO T b ee) = Ok c6 /\
+    slice b (sa_off + sa_L b + MacLen) MacLen = fst (cy_squeeze keccak12 (cy_absorb keccak12 c6 des) (N.to_nat MacLen)).
+Proof. exact (c_read_server_auth_accept keccak12). Qed.
+Print Assumptions c01_concrete_server_auth_accept.
